@@ -144,7 +144,7 @@ fn split_time_zone(s: &str) -> Result<(&str, Option<FixedOffset>), String> {
     lazy_static::lazy_static! {
         static ref WITH_ZONE: regex::Regex = regex::Regex::new(
             r"(?x)^(?P<date_time> .*? \d{1,2} : \d{2} (?: : \d{2} (?: [.,] \d+ )? )? (?: \s* [AaPp][Mm] )? )
-              \s* (?P<utc> Z | UTC | GMT )?
+              \s* (?P<utc> Z | UTC | GMT | UT )?
               \s* (?: (?P<sign> [+-] ) (?P<hours> \d{1,2} ) (?: :? (?P<minutes> \d{2} ) )? )? $"
         )
         .unwrap();
@@ -186,14 +186,15 @@ fn split_time_zone(s: &str) -> Result<(&str, Option<FixedOffset>), String> {
     Ok((date_time, offset))
 }
 
-/// Returns true if the word looks like an abbreviated name of a time zone, e.g. CEST or JST.
+/// Returns true if the word looks like an abbreviated name of a time zone, e.g. CEST, JST, ET
+/// or one of the military letters.
 fn is_time_zone_name(word: &str) -> bool {
-    const NOT_ZONES: [&str; 26] = [
+    const NOT_ZONES: [&str; 29] = [
         "JAN", "FEB", "MAR", "APR", "MAY", "JUN", "JUL", "AUG", "SEP", "SEPT", "OCT", "NOV", "DEC",
         "MARCH", "APRIL", "JUNE", "JULY", "MON", "TUE", "TUES", "WED", "THU", "THUR", "THURS",
-        "FRI", "SAT",
+        "FRI", "SAT", "AM", "PM", "T",
     ];
-    (3..=5).contains(&word.len())
+    (1..=5).contains(&word.len())
         && word.chars().all(|c| c.is_ascii_uppercase())
         && word != "SUN"
         && !NOT_ZONES.contains(&word)
